@@ -158,7 +158,7 @@ class OrderRecorder:
         pre = "_lambda__" + repr(host).replace(".", "_").replace("[", "_").replace("]", "_") + "_"
         if name.startswith(pre): name = "lam:" + name[len(pre):]      # s.x //= lambda: ...
         label = ("blk", ip, name)
-        self.by_code.setdefault(id(f.__code__), []).append((host, label))
+        self.by_code.setdefault(id(f.__code__), []).append((self._cells(f), label))
       else:
         # two nets driven by equal constants get the same generated name: number them
         k = sum(1 for n in self.net_labels if n[1] == f.__name__)
@@ -167,6 +167,14 @@ class OrderRecorder:
         self.by_code.setdefault(id(f.__code__), []).append((None, lab))
     self.calls = []
 
+  @staticmethod
+  def _cells(f):
+    out = []
+    for c in (f.__closure__ or ()):
+      try: out.append(id(c.cell_contents))
+      except ValueError: out.append(id(None))
+    return tuple(out)
+
   def _prof(self, frame, event, arg):
     if event != "call": return
     ent = self.by_code.get(id(frame.f_code))
@@ -174,10 +182,13 @@ class OrderRecorder:
     if len(ent) == 1:
       label = ent[0][1]
     else:
-      s = frame.f_locals.get("s")
+      # instances of one class share the code object of a block: the closure cells (s, helper functions, closure
+      # constants) tell them apart
+      loc = frame.f_locals
+      cells = tuple(id(loc.get(n)) for n in frame.f_code.co_freevars)
       label = None
-      for host, lab in ent:
-        if host is s: label = lab; break
+      for fc, lab in ent:
+        if fc == cells: label = lab; break
       if label is None: label = ("?", frame.f_code.co_name)
     self.calls.append(label)
     if self.on_call is not None:
